@@ -229,6 +229,9 @@ class Lib(object):
             raise Unsupported("iteration over generator %s without a sequence contract" % it.f.qual)
         if isinstance(it, SeqView):
             return p, it
+        h = self.methods.get((type(it).__name__, "__iter__"))
+        if h:
+            return h(ex, p, it, ln)
         raise Unsupported("iteration over %r line %s" % (it, ln))
 
     def cut(self, ex, st, p, fctx, key, spec, cond, step, bind, extra_locals=(), auto_inv=None, index_name=None):
@@ -459,6 +462,8 @@ class Lib(object):
 
     def map_store(self, ex, p, ref, k, v, ln):
         o = p.obj(ref)
+        if isinstance(k, Opt) or k is None:
+            k = ex.unwrap(k, p, "map key", ln)
         kz = self._key(k)
         if kz.sort() != INT:
             raise Unsupported("map key sort")
@@ -471,6 +476,8 @@ class Lib(object):
 
     def map_load(self, ex, p, ref, k, ln):
         o = p.obj(ref)
+        if isinstance(k, Opt) or k is None:
+            k = ex.unwrap(k, p, "map key", ln)
         kz = self._key(k)
         if o.cls == "Counter":
             # Counter[k] is 0 for a missing key (and does not insert it)
